@@ -18,7 +18,7 @@ Proof. exact login_secrets_ok. Qed.
 Print Assumptions C17_secrets_only_when_asked.
 
 (** When at least one of auto_prompt_reset / sync_original_prompt is on: True is returned only if a shell prompt was
-    evidenced (original prompt matched, or the re-sync succeeded, or the unique prompt was seen) and - with
+    evidenced (original prompt matched, or the re-sync read back a non-empty prompt-like text, or the unique prompt was seen) and - with
     auto_prompt_reset - only if the unique prompt was set; every other dialogue ends in ExceptionPxssh / EOF / TIMEOUT. *)
 Theorem C17_success_only_at_a_prompt : forall o script, (auto_prompt_reset o || sync_original o = true) ->
   dialogue_ok o (run_login o script) = true.
